@@ -383,6 +383,12 @@ class Ctx:
 
 
 def run_check(pid, tier, seed, replay=None):
+    # one run per property at a time (work/<pid>/ and evidence/<pid>.json are per property)
+    with Lock('run-' + pid):
+        return _run_check(pid, tier, seed, replay)
+
+
+def _run_check(pid, tier, seed, replay=None):
     t0 = time.time()
     mod = load_plugin(pid)
     spec = mod.SPEC
